@@ -87,8 +87,48 @@ Proof.
   rewrite <- powmod_spec by lia. vm_compute. reflexivity.
 Qed.
 
+(* ---- Python_DSAKey.generate() establishes the group hypothesis (since /repo b7d3c31) -------
+   p = 2kq + 1, g = index^((p-1)//q) mod p.  The only thing assumed about p is what primality gives
+   for the chosen index: index^(p-1) = 1 (mod p) (Fermat; isPrime() is a Miller-Rabin test, trusted). *)
+Lemma dsa_generate_group q k index x :
+  1 < q -> 0 < k -> index ^ (dsa_gen_p q k - 1) mod dsa_gen_p q k = 1 ->
+  let key := dsa_gen_key q k index x in
+  (dk_p key - 1) mod dk_q key = 0 /\ 1 < dk_p key /\
+  dk_g key ^ dk_q key mod dk_p key = 1 /\
+  dk_y key = powmod (dk_g key) (dk_x key) (dk_p key).
+Proof.
+  intros Hq Hk Hf. unfold dsa_gen_key. cbn [dk_p dk_q dk_g dk_x dk_y].
+  unfold dsa_gen_g. set (p := dsa_gen_p q k) in *.
+  assert (Ep : p - 1 = 2 * k * q) by (unfold p, dsa_gen_p; ring).
+  assert (Hp : 1 < p) by nia.
+  rewrite Ep. rewrite Z.mod_mul by lia. rewrite Z.div_mul by lia.
+  repeat split; try assumption; try lia.
+  rewrite powmod_spec by lia. rewrite pow_mod_l by lia.
+  rewrite <- Z.pow_mul_r by lia. rewrite <- Ep. exact Hf.
+Qed.
+
+Theorem dsa_generated_key_sign_verifies q k index x :
+  1 < q -> 0 < k -> 0 <= x -> index ^ (dsa_gen_p q k - 1) mod dsa_gen_p q k = 1 ->
+  let key := dsa_gen_key q k index x in
+  forall data nonce ninv w, 0 <= nonce -> (nonce * ninv) mod dk_q key = 1 ->
+    let '(r, s) := dsa_sign key data nonce ninv in
+    (s * w) mod dk_q key = 1 -> 0 < r -> 0 < s -> dsa_verify key r s data w = true.
+Proof.
+  intros Hq Hk Hx Hf key data nonce ninv w Hn Hinv.
+  destruct (dsa_generate_group q k index x Hq Hk Hf) as (_ & Hp & Hg & Hy). fold key in Hp, Hg, Hy.
+  apply (dsa_sign_then_verify key Hp); try assumption.
+Qed.
+
+(* instance: q = 101, k = 3 gives p = 607 (prime), index = 2 *)
+Lemma dsa_generate_instance : 2 ^ (dsa_gen_p 101 3 - 1) mod dsa_gen_p 101 3 = 1 /\ dsa_gen_key 101 3 2 57 = toy_dsa.
+Proof.
+  split; [|vm_compute; reflexivity].
+  change (dsa_gen_p 101 3) with 607. rewrite <- powmod_spec by lia. vm_compute. reflexivity.
+Qed.
+
 (* The group hypothesis g^q = 1 (mod p) is necessary: parameters with q not dividing p-1 -- the kind
-   Python_DSAKey.generate_qp() produces, its loop exits when (p-1) % q is NON-zero -- give
+   Python_DSAKey.generate_qp() produced BEFORE /repo b7d3c31 (its loop exited when (p-1) % q was
+   NON-zero; then theorem dsa_sign_verifies_without_group_hypothesis_refuted) -- give
    signatures that do not verify.  p = 23, q = 7, g = 2^3, x = 3, data = [5], k = 2. *)
 Definition bad_dsa : dsa_key := {| dk_p := 23; dk_q := 7; dk_g := 8; dk_x := 3; dk_y := powmod 8 3 23 |}.
 Lemma dsa_group_hypothesis_needed :
